@@ -118,6 +118,14 @@ def cases(tier, seed):
                     for nie in range(n):
                         yield [n, g, kind, list(perm), None, list(range(n)), False,
                                {nie: {'tearDown': 'NIE'}}, 'none']
+    # hand-picked graphs on 5 and 6 layers under every naming
+    for g in worlds.DEEP_GRAPHS:
+        n = len(g)
+        kinds = ['i'] + (['c'] if worlds.c3_ok(g) else [])
+        for perm in itertools.permutations(range(n)):
+            for kind in kinds:
+                for owners in (list(range(n)), [n - 1]):
+                    yield [n, g, kind, list(perm), None, owners, False, {}, 'none']
     # durations of a minute and more, the colour formatter, high verbosity, the
     # progress display; hooks that return a value while warnings are errors
     for n in (2, 3):
